@@ -84,6 +84,101 @@ RULES = [
  ("utils::parse_csv_row", r"unwrap\(from_utf8", "the input is a &str and csv unquoting only removes ASCII quote bytes at character boundaries; fields are converted whole (accumulated across OutputFull)", None),
 ]
 
+VERIFYIDS = {"kind": "rule", "rule": "VERIFYMAP"}
+UNKLEN = {"kind": "len_le", "fn": "vibrato::dictionary::unknown::UnkHandler::from_reader",
+          "local": "entries", "le": 65536, "sink": {"adt": "UnkHandler", "field": "entries"}}
+LATTICE = {"kind": "rule", "rule": "LATTICE"}
+UNKFALL = {"kind": "rule", "rule": "UNKFALL"}
+
+# Audit of the tokenization path (functions below Worker / Token that the builders do not reach).
+# (function substring, key regex, reason, guard)
+TOK_RULES = [
+ # ---- connectors: ids are verified against the connector when a dictionary is built / a user lexicon installed
+ ("DualConnector as", r"index\(arg1\.(right|left)_(conn_id_map|feat_ids),from\(arg[23]\)\)", "right/left ids of every lexicon, user-lexicon and unk.def entry are < num_right/num_left (verify() in build() and reset_user_lexicon_from_reader; id 0 for BOS/EOS), and both tables have one element per id", VERIFYIDS),
+ ("MatrixConnector as", r"index\(arg1\.data,index\(arg1\)\)", "index() = left_id * num_right + right_id with verified ids < num_left/num_right is < data.len() = num_left * num_right (checked by the matrix parser)", VERIFYIDS),
+ ("RawConnector::right_feature_ids", r".*", "row id*w..(id+1)*w of a table with num_right*w vectors, id verified < num_right (usize arithmetic on a value below an allocated length)", VERIFYIDS),
+ ("RawConnector::left_feature_ids", r".*", "row id*w..(id+1)*w of a table with num_left*w vectors, id verified < num_left", VERIFYIDS),
+ # ---- dictionary accessors
+ ("Dictionary::word_", r"unwrap\(user_lexicon", "LexType::User word indices are produced only by the user lexicon's own common_prefix_iterator (DISPATCH rule), which exists only when a user lexicon is installed", None),
+ ("Lexicon::word_", r"assert_failed", "debug_assert_eq!(word_idx.lex_type, self.lex_type): components are looked up by their own tag (DISPATCH rule)", None),
+ ("UnkHandler::word_", r"assert_failed", "debug_assert_eq!(lex_type, Unknown): dispatch by tag (DISPATCH rule)", None),
+ ("UnkHandler::word_", r"index\(arg1\.entries", "word_id of an unknown word is the loop variable of offsets[c]..offsets[c+1] <= entries.len() in scan_entries, narrowed to u16 without loss (unk.def has at most 65536 entries)", UNKLEN),
+ ("WordFeatures::get", r"index", "word ids come from the trie postings, which list indices of the entries the features were built from (same Vec order in Lexicon::from_entries)", None),
+ ("Postings::ids", r".*", "offsets stored in the trie are the offsets PostingsBuilder::push returned; data[i] is the length it wrote in front of the ids, so i+1+len <= data.len()", None),
+ ("CharInfo::length", r"cast", "the field occupies the top bits: only 32-28 = 4... bits remain after the shift", None),
+ ("char_info::{closure", r"index\(arg1\.#0\.chr2inf,0\)", "chr2inf has 0x10000 elements (CharProperty::from_reader resizes it before filling)", None),
+ # ---- unknown words
+ ("gen_unk_words", r"assert_failed", "debug_assert_ne!(groupable, 0): compute_groupable fills 1 and only increments", None),
+ ("gen_unk_words", r"Sub\(groupable", "groupable >= 1 (filled with 1, only incremented)", None),
+ ("gen_unk_words", r"Add\(arg3,", "start + run/prefix length <= sentence length <= isize::MAX (run lengths never cross the end of the sentence)", None),
+ ("scan_entries", r"index\(arg1\.offsets", "base_id < number of categories: both the CharInfo table and offsets (num_categories + 1 elements) are built from the same CharProperty in SystemDictionaryBuilder::build", None),
+ ("scan_entries", r"Add\(from_u32\(base_id", "category id + 1 <= 18", None),
+ ("scan_entries", r"index\(arg1\.entries,next", "loop over offsets[c]..offsets[c+1], prefix sums of the per-category lists, last = entries.len()", None),
+ ("scan_entries", r"cast\|usize->u16", "word_id < entries.len() <= 65536", UNKLEN),
+ # ---- sentence
+ ("Sentence::byte_position", r"index", "positions handed out are node boundaries 0..=len_char; c2b has len_char+1 elements", None),
+ ("Sentence::char_info", r"index", "callers pass positions < len_char (loop guard start_word < len_char in build_lattice_inner; has_previous_node(start_node) with start_node <= start_word)", LATTICE),
+ ("Sentence::groupable", r"index", "as for char_info", LATTICE),
+ ("Sentence::compute_", r"panic\(|assert_failed", "debug assertions on a non-empty sentence: Worker::tokenize returns before compile() for an empty sentence", None),
+ ("Sentence::compute_groupable", r"unwrap\(last", "cinfos is non-empty (one element per character, sentence non-empty)", None),
+ ("Sentence::compute_groupable", r".*", "i runs over (1..len).rev(): i-1 and i are < len = groupable.len() = cinfos.len(); run lengths <= len", None),
+ # ---- tokens
+ ("token::Token", r"index\(arg1\.worker\.top_nodes,arg1\.index\)", "Token values are created by Worker::token(i) / TokenIter with index < num_tokens; the borrow of the worker keeps top_nodes unchanged (SHARE witnesses)", None),
+ ("token::Token", r"traits::index\(raw", "byte range from c2b at two node boundaries start <= end: char boundaries of the input by construction", None),
+ ("Worker::<'t>::token", r"Sub\(", "API precondition i < num_tokens() (as for slice indexing); not reachable from tokenize()", None),
+ ("Worker::<'t>::update_connid_counts", r"unwrap\(as_mut", "documented: panics when init_connid_counter() was never called", None),
+ ("Worker::<'t>::compute_connid_probs", r"unwrap\(as_ref", "documented: panics when init_connid_counter() was never called", None),
+ # ---- id statistics
+ ("ConnIdCounter::add", r"index_mut", "ids of lattice nodes are verified dictionary ids (or 0); the counter was created with the connector's num_left/num_right (KIND-ARG on ConnIdCounter::new)", VERIFYIDS),
+ ("ConnIdCounter::add", r"Add\(index_mut", "usize counter of evaluated connections", None),
+ ("ConnIdCounter::compute_probs", r".*", "both count vectors have at least the BOS/EOS slot (a connector has >= 1 id per side), so drain(..1) is in range; the assert compares a constant", None),
+ # ---- lattice construction
+ ("Tokenizer::add_lattice_edges", r"index::index\(chars", "start_word < len_char (loop guard and the `start_word == len_char => break` test in build_lattice_inner)", LATTICE),
+ ("Tokenizer::add_lattice_edges", r"Add\(arg5,next", "start_word + match length <= len_char: the trie is searched over the remaining text only", None),
+ ("Tokenizer::add_lattice_edges", r"panicking::panic", "debug_assert!(start_word + m.end_char <= len_char): as above", None),
+ ("Tokenizer::build_lattice_inner", r"Add\(var:usize,(1|var:usize)\)", "positions bounded by the sentence length", None),
+ ("Lattice::reset", r"Add\(arg2,1\)", "sentence length + 1", None),
+ ("Lattice::insert_bos", r"index_mut\(arg1\.ends,0\)", "reset() grew ends to len_char + 1 >= 1 elements just before", None),
+ ("Lattice::insert_node", r"panicking::panic", "debug assertions start_node <= start_word < end_word: callers pass positions in that order", None),
+ ("Lattice::insert_node", r"index_mut\(arg1\.ends,arg4\)", "end_word <= len_char < ends.len() (matches and unknown words stay inside the sentence)", None),
+ ("Lattice::search_min_node", r"index\(arg1\.ends,arg2\)", "start_node <= len_char < ends.len()", None),
+ ("Lattice::search_min_node", r"panic\(|assert_failed", "debug assertions: ends[start_node] is non-empty because build_lattice_inner processes a position only when has_previous_node(start_node) (LATTICE rule) and every processed position adds a node (UNKFALL), and EOS hangs off start_node", LATTICE),
+ ("Lattice::append_top_nodes", r"unwrap\(as_ref\(arg1\.eos", "build_lattice_inner ends with insert_eos on every path (LATTICE rule); tokenize() calls append_top_nodes only after build_lattice", LATTICE),
+ ("Lattice::append_top_nodes", r"index", "back-pointers (start_node, min_idx) were stored by insert_node/insert_eos from search_min_node over a non-empty ends[start_node]; min_idx < its length (known finding: more than 65535 nodes at one boundary)", LATTICE),
+ ("Lattice::add_connid_counts", r"unwrap\(as_ref\(arg1\.eos", "update_connid_counts returns early for an empty sentence; otherwise tokenize() built the lattice with EOS", None),
+ ("Lattice::add_connid_counts", r"index", "end_char in 1..=len_char and start_node values stored by insert_node are < ends.len()", None),
+]
+
+# i32 sums of costs on the tokenization path: not justified (see known_findings.txt)
+TOK_OPEN = [
+ ("Lattice::search_min_node", r"Add\(next\(_\)\.#1\.min_cost,cost"),
+ ("Lattice::insert_node", r"Add\(search_min_node"),
+ ("DualConnector as", r"Add\(cost\(arg1\.matrix_connector\),accumulate_cost"),
+ ("Lattice::search_min_node", r"cast\|usize->u16"),
+]
+
+
+def tok_entries():
+    import engine, r_panic
+    ctx = engine.Ctx("C10", "quick")
+    keys = r_panic.tok_sites(ctx)
+    entries, missing = [], []
+    for k in keys:
+        fn = k.split("|")[0]
+        if any(sub in fn and re.search(rx, k) for sub, rx in TOK_OPEN):
+            continue
+        for sub, rx, reason, guard in TOK_RULES:
+            if sub in fn and re.search(rx, k):
+                e = {"key": "TOK|" + k, "reason": reason}
+                if guard:
+                    e["guard"] = guard
+                entries.append(e)
+                break
+        else:
+            missing.append(k)
+    return entries, missing
+
+
 def main():
     import engine, r_panic
     ctx = engine.Ctx("C10", "quick")
@@ -107,6 +202,9 @@ def main():
                     "guard": {"kind": "len_le", "fn": "vibrato::dictionary::unknown::UnkHandler::from_reader",
                               "local": "entries", "le": 65536,
                               "sink": {"adt": "UnkHandler", "field": "entries"}}})
+    tok, tok_missing = tok_entries()
+    entries += tok
+    missing += ["TOK|" + k for k in tok_missing]
     doc = {"_doc": "PANIC audit table: sites that no structural discharger covers, each with the "
                    "reason it cannot fire and, where safety rests on a check elsewhere, a guard "
                    "that is re-verified on every run. Generated by spec/gen_panic_table.py from the "
